@@ -234,6 +234,12 @@ class DataPath:
     def to_part_specs(self):
         """Get part specs from which `from_part_specs` re-builds this path. Parts that cannot
         be represented faithfully (in this form) raise, rather than being approximated."""
+        if self.DATUM_TYPE.value or self.MULTI_TYPE.value or self.source_data:
+            raise RuntimeError(
+                f"Cannot convert a path with a datum type, a multi type or source data to "
+                f"part specs, which represent the parts only: {self!r}."
+            )
+
         parts = []
         for part, simple_part in zip(self.parts, self.simplify()):
             if part.label is not None:
@@ -251,6 +257,18 @@ class DataPath:
             else:
                 raise RuntimeError(f"Cannot convert part to a part spec: {part!r}.")
             parts.append(part_spec)
+
+        if not self.is_concrete and not any(isinstance(i, dict) for i in parts):
+            # a path re-built from map keys / list indices only would be concrete, so write
+            # the last part in its explicit form:
+            if isinstance(self.parts[-1], MapValue):
+                parts[-1] = {"type": "map_value", "key.equal_to": parts[-1]}
+            else:
+                parts[-1] = {
+                    "type": "map_or_list_value",
+                    "key.equal_to": parts[-1],
+                    "index.equal_to": parts[-1],
+                }
         return parts
 
     @classmethod
